@@ -409,7 +409,8 @@ def _perturb(rng, toks):
         if r < 0.4:
             del toks[i]
         elif r < 0.7:
-            toks.insert(i, rng.choice(["(", ")", ",", ":", ";", ["zz"], {"num": "3/2"}]))
+            # a fresh label every time: TreeBuilder renames duplicate names (outside the stated domain)
+            toks.insert(i, rng.choice(["(", ")", ",", ":", ";", [f"zz{rng.randint(0, 10**9)}"], {"num": "3/2"}]))
         else:
             j = rng.randrange(len(toks))
             toks[i], toks[j] = toks[j], toks[i]
